@@ -317,6 +317,8 @@ def strip_boosts(case):
                 t["xs"] = [strip(x) for x in t["xs"]]
             if t["m"] == "wrap" and t["boost"] > 1.0:
                 return t["a"]
+            if t["m"] == "filter" and t.get("boost", 1.0) > 1.0:
+                return dict(t, boost=1.0)
             return t
         c["tree"] = strip(c["tree"])
     else:
@@ -329,7 +331,7 @@ def strip_boosts(case):
 def has_big_boost(case):
     if case["kind"] == "direct":
         def anyw(t):
-            if t["m"] == "wrap" and t["boost"] > 1.0:
+            if t["m"] in ("wrap", "filter") and t.get("boost", 1.0) > 1.0:
                 return True
             return any(anyw(t[k]) for k in ("a", "b") if k in t) or any(anyw(x) for x in t.get("xs", []))
         return anyw(case["tree"])
